@@ -54,7 +54,7 @@ Proof.
 Qed.
 
 (* ------------------------------------------------------------------ computed witnesses *)
-Definition ev_eqb_run (u : uid) (e : event) : bool := match e with EvRun v _ _ => uid_eqb u v | _ => false end.
+Definition ev_eqb_run (u : uid) (e : event) : bool := match e with EvRun v _ _ _ => uid_eqb u v | _ => false end.
 Definition ev_eqb_postret (u : uid) (e : event) : bool := match e with EvPostRet v => uid_eqb u v | _ => false end.
 Definition ev_is_cwbegin (t : tid) (i : idx) (e : event) : bool :=
   match e with EvCwBegin t' i' => Nat.eqb t t' && Nat.eqb i i' | _ => false end.
